@@ -28,7 +28,12 @@ class NullLog:
 
 class Clock:
     """virtual clock in milliseconds (may hold a SymInt)"""
-    def __init__(self): self.ms = 0
+    source = None          # optional callable giving the current virtual time in ms (system level: the simulator's clock)
+    def __init__(self): self._ms = 0
+    @property
+    def ms(self): return self.source() if self.source is not None else self._ms
+    @ms.setter
+    def ms(self, v): self._ms = v
     def time_ns(self): return self.ms * 1_000_000
     def time(self): return self.ms / 1000 if isinstance(self.ms, int) else self.ms
     def sleep(self, s): pass
